@@ -176,7 +176,256 @@ def replay(p):
                 gam = _gamma(1, m, m0, g0, q, q0, d)
                 ref = (1 + Dv * g0 / m0) / (m0 * m0 - m * m + fv - 1j * m0 * gam)
                 err = abs(r - ref) / max(1.0, abs(ref))
+        elif kind in ("pm", "calmom"):
+            return _replay_pm(p)
+        elif kind == "pmls":
+            return _replay_pmls(p)
         else:
             return {"reproduced": False, "error": "unknown kind %s" % kind}
     err = float(err)
     return {"reproduced": bool(err > tol or err != err), "error_magnitude": err, "tolerance": tol, "kind": kind}
+
+
+# ------------------------------------------------------------------ registered particle models (props/C15pm.py)
+
+
+def _q2(m, a, b):
+    return (m * m - (a + b) ** 2) * (m * m - (a - b) ** 2) / (4 * m * m)
+
+
+def _csqrt(x):
+    import cmath
+
+    return cmath.sqrt(complex(x))
+
+
+def _pm_reference(model, L, extra, v, q, q0):
+    """documented formulas in plain complex arithmetic; q, q0: break-up momenta of R -> B C at m and m0"""
+    import cmath
+
+    m, m0 = v["m"], v["m0"]
+    g0 = v.get("g0")
+    d = 3.0
+    if model in ("BWR", "default", "BWR2", "BWR_below", "BW", "BWR_normal"):
+        running = extra.get("running_width", True) and model != "BW"
+        gam = _gamma(L, m, m0, g0, q, q0, d) if running else g0
+        R = 1 / (m0 * m0 - m * m - 1j * m0 * gam)
+        if model == "BWR_normal" and running:
+            R = R * math.sqrt(m0 * gam)
+        if extra.get("width_norm"):
+            R = R * g0
+        return R
+    if model == "BWR_coupling":
+        gam = q / m * q ** (2 * L) * _P(L, 1.0) / _P(L, (q * d) ** 2)
+        return 1 / (m0 * m0 - m * m - 1j * m0 * g0 * gam)
+    if model == "LASS":
+        a, r = abs(v["p_a"]), abs(v["p_r"])
+        cot = 1 / (a * q) + r * q / 2
+        e2 = complex(cot * cot - 1, 2 * cot) / (cot * cot + 1)
+        return m / (q * cot - 1j * q) + e2 * (m0 * g0 * m0 / q0) / (m0 * m0 - m * m - 1j * m0 * g0 * (q / m) * (m0 / q0))
+    if model == "one":
+        return 1.0
+    if model == "x":
+        return m
+    if model == "exp":
+        return math.exp(-abs(v["p_a"]) * m)
+    if model == "exp_com":
+        return cmath.exp(-complex(v["p_a"], v["p_b"]) * m * m)
+    if model.startswith("Flatte"):
+        gen = model in ("FlatteGen", "Flatte2")
+        sign = 1 if model == "Flatte" else -1
+        ml = extra["mass_list"]
+        ll = extra.get("l_list") or [0] * len(ml)
+        tot = 0
+        for i, (ma, mb) in enumerate(ml):
+            g = v["p_g_%d" % i]
+            if model == "Flatte2":
+                g = g * g
+            qi = _csqrt(_q2(m, ma, mb))
+            if qi.real == 0 and qi.imag < 0:
+                qi = -qi
+            term = g * qi / m
+            if gen:
+                if extra.get("cut_phsp") and m < ma + mb:
+                    continue
+                qi0 = abs(_csqrt(_q2(m0, ma, mb)))
+                if extra.get("no_q0"):
+                    qi0 = 1.0
+                else:
+                    term = term * m0 / qi0
+                l = ll[i]
+                term = term * (abs(qi) / qi0) ** (2 * l)
+                if extra.get("has_bprime", True):
+                    term = term * _P(l, (qi0 * d) ** 2) / _P(l, (abs(qi) * d) ** 2)
+            tot += term
+        pre = 1.0 if (gen and extra.get("no_m0")) else m0
+        return 1 / (m0 * m0 - m * m + sign * 1j * pre * tot)
+    return None
+
+
+def _replay_pm(p):
+    import copy
+
+    import tensorflow as tf
+
+    tol = 1e-8
+    if p["kind"] == "calmom":
+        import sympy
+
+        import tf_pwa.amp.flatte as fl
+
+        v = p["values"]
+        m, ma, mb = v["m"], v["ma"], v["mb"]
+        got = complex(np.asarray(fl.cal_monentum(tf.convert_to_tensor(np.array([m])), ma, mb).numpy()).reshape(-1)[0])
+        ref = _csqrt(_q2(m, ma, mb))
+        if ref.real == 0 and ref.imag < 0:
+            ref = -ref
+        sm = sympy.Symbol("m")
+        gs = complex(sympy.N(fl.cal_monentum_sympy(sm, ma, mb).subs({sm: m})))
+        err = max(abs(got - ref), abs(gs - ref)) / max(1.0, abs(ref))
+        return {"reproduced": bool(err > tol or err != err), "error_magnitude": float(err), "kind": "calmom"}
+    from props.C15pm import MA, MB, MC, cfg
+    from tf_pwa.config_loader import ConfigLoader
+
+    model, L, extra, v = p["model"], p["L"], dict(p["extra"]), dict(p["values"])
+    below = extra.pop("__below__", False)
+    try:
+        config = ConfigLoader(copy.deepcopy(cfg(model, L, **extra)))
+        amp = config.get_amplitude()
+    except Exception as e:
+        return {"reproduced": bool(p.get("expect_raise")), "error": "%s: %s" % (type(e).__name__, str(e)[:200])}
+    chain = list(amp.decay_group)[0]
+    R = list(chain.inner)[0]
+    for n in list(amp.vm.variables):
+        if n == "R_BC_mass":
+            amp.vm.set(n, v["m0"])
+        elif n == "R_BC_width":
+            amp.vm.set(n, v["g0"])
+        elif n.startswith("R_BC_"):
+            amp.vm.set(n, v.get("p_" + n[len("R_BC_"):], 1.0))
+    m, m0 = v["m"], v["m0"]
+    t = lambda x: tf.convert_to_tensor(np.array([x], dtype=np.float64))
+    c = lambda x: complex(np.asarray(x.numpy() if hasattr(x, "numpy") else x).reshape(-1)[0])
+    out = {"kind": "pm", "tag": p.get("tag")}
+    with np.errstate(all="ignore"):
+        if p.get("pmq"):
+            data_p = {q_: {"m": t(float(q_.get_mass()))} for q_ in chain.outs}
+            data_p[chain.top] = {"m": t(MA)}
+            data_p[R] = {"m": t(m)}
+            data_c = {d_: {} for d_ in chain}
+            chain.get_amp_particle(data_p, data_c, all_data={"particle": data_p, "decay": data_c})
+            dc = [x for d_, x in data_c.items() if d_.core is R][0]
+            q2, q02 = _q2(m, MB, MC), _q2(m0, MB, MC)
+            errs = [abs(c(dc["|q|"]).real - math.sqrt(q2)), abs(c(dc["|q0|"]).real - math.sqrt(q02)), abs(c(dc["|q|2"]).real - q2), abs(c(dc["|q0|2"]).real - q02)]
+            err = max(errs)
+            out.update(reproduced=bool(err > tol or err != err), error_magnitude=float(err))
+            return out
+        if p.get("dom"):
+            import sympy
+
+            var = R.get_sympy_var()
+            flat = []
+            for x in var:
+                flat += list(x) if isinstance(x, (list, tuple)) else [x]
+            sheet = (1 << len(extra["mass_list"])) - 1 if model.startswith("Flatte") else 0
+            try:
+                f = R.get_sympy_dom(*var, sheet=sheet)
+                nums = [float(np.asarray(x.numpy() if hasattr(x, "numpy") else x).reshape(-1)[0]) for x in R.get_num_var()]
+                g = f.subs(dict(zip(flat[1:], nums)))
+                dom = complex(sympy.N(g.subs({flat[0]: m})))
+                rnum = c(R(t(m)))
+            except Exception as e:
+                out.update(reproduced=bool(p.get("expect_raise")), error="%s: %s" % (type(e).__name__, str(e)[:200]))
+                return out
+            err = abs(rnum * dom - 1)
+            out.update(reproduced=bool(err > tol or err != err), error_magnitude=float(err), numeric_inverse=[(1 / rnum).real, (1 / rnum).imag], sympy_dom=[dom.real, dom.imag], m=m, m0=m0)
+            return out
+        data_p = {q_: {"m": t(float(q_.get_mass()))} for q_ in chain.outs}
+        data_p[chain.top] = {"m": t(MA)}
+        data_p[R] = {"m": t(m)}
+        data_c = {d_: {} for d_ in chain}
+        if p.get("symq"):
+            q, q0 = v["q"], v["q0"]
+            for d_ in chain:
+                if d_.core is R:
+                    data_c[d_].update({"|q|": t(q), "|q0|": t(q0), "|q|2": t(q * q), "|q0|2": t(q0 * q0)})
+        else:
+            q = math.sqrt(max(_q2(m, MB, MC), 0.0))
+            if below:
+                mmax, mmin = MA - 0.25, MB + MC
+                meff = mmin + (mmax - mmin) / 2 * (1 + math.tanh((m0 - (mmax + mmin) / 2) / (mmax - mmin)))
+                q0 = math.sqrt(_q2(meff, MB, MC))
+            else:
+                q0 = math.sqrt(max(_q2(m0, MB, MC), 0.0))
+        try:
+            got = c(chain.get_amp_particle(data_p, data_c, all_data={"particle": data_p, "decay": data_c}))
+        except Exception as e:
+            out.update(reproduced=bool(p.get("expect_raise")), error="%s: %s" % (type(e).__name__, str(e)[:200]))
+            return out
+        if model == "GS_rho":
+            from tf_pwa import breit_wigner as bw
+
+            ref = c(bw.GS(t(m), t(m0), t(v["g0"]), t(q), t(q0), L, 3.0, 0.13957039, 0.1349768))
+        else:
+            ref = _pm_reference(model, L, extra, v, q, q0)
+        if ref is None:
+            out.update(reproduced=False, error="no reference for %s" % model)
+            return out
+        err = abs(got - ref) / max(1.0, abs(ref))
+        bad_im = model in ("BWR", "default", "BWR2", "BW", "BWR_coupling") and v.get("g0", 1) > 0 and not got.imag > 0
+        out.update(reproduced=bool(err > tol or err != err or bad_im), error_magnitude=float(err), got=[got.real, got.imag], documented=[ref.real, ref.imag] if isinstance(ref, complex) else [float(ref), 0.0], m=m, m0=m0)
+        return out
+
+
+def _replay_pmls(p):
+    import sympy
+    import tensorflow as tf
+
+    from props.C15pm import MB, MC, _ls_particle
+
+    v = p["values"]
+    m, m0, g0, k, q02 = v["m"], v["m0"], v["g0"], v["k"], v["q02"]
+    q2 = k * k * q02
+    a, dec = _ls_particle(p["case"], p["fix"])
+    vm = a.mass.vm
+    vm.set("R_mass", m0)
+    vm.set("R_width", g0)
+    th = list(p["thetas"])
+    for i, x in enumerate(th):
+        vm.set("R_theta%d" % i, x)
+    ls = dec.get_ls_list()
+    t = lambda x: tf.convert_to_tensor(np.array([x], dtype=np.float64))
+    c = lambda x: complex(np.asarray(x.numpy() if hasattr(x, "numpy") else x).reshape(-1)[0])
+    d = 3.0
+    out = {"kind": "pmls", "case": p["case"], "fix_bug1": p["fix"]}
+    with np.errstate(all="ignore"):
+        if p.get("dom"):
+            var = a.get_sympy_var()
+            f = a.get_sympy_dom(*var)
+            flat, nums = [], []
+            for x in var:
+                flat += list(x) if isinstance(x, (list, tuple)) else [x]
+            for x in a.get_num_var():
+                nums += list(x) if isinstance(x, (list, tuple)) else [x]
+            nums = [float(np.asarray(x.numpy() if hasattr(x, "numpy") else x).reshape(-1)[0]) for x in nums]
+            # the momenta follow from the masses here (the solver's q^2, q0^2 are free): use a mass above threshold
+            mm = max(m, MB + MC + 0.1)
+            mm0 = max(m0, MB + MC + 0.1)
+            vm.set("R_mass", mm0)
+            nums[0] = mm0
+            dom = complex(sympy.N(f.subs(dict(zip(flat[1:], nums))).subs({flat[0]: mm})))
+            nd, _ = a.get_ls_amp_frac(t(mm), ls, t(_q2(mm, MB, MC)), t(_q2(mm0, MB, MC)))
+            err = abs(dom - c(nd)) / max(1.0, abs(dom))
+            out.update(reproduced=bool(err > 1e-8 or err != err), error_magnitude=float(err), sympy_dom=[dom.real, dom.imag], numeric_dom=[c(nd).real, c(nd).imag])
+            return out
+        got = [c(x) for x in a.get_ls_amp(t(m), ls, t(q2), t(q02))]
+        gam, f = [], 1.0
+        for x in th:
+            gam.append(f * math.cos(x))
+            f *= math.sin(x)
+        gam.append(f)
+        g = [ga * k**l * math.sqrt(_P(l, q02 * d * d) / _P(l, q2 * d * d)) for (l, _s), ga in zip(ls, gam)]
+        den = m0 * m0 - m * m - 1j * m0 * g0 * k * (m0 / m) * sum(x * x for x in g)
+        err = max(abs(r_ * den - gi) for r_, gi in zip(got, g))
+        out.update(reproduced=bool(err > 1e-8 or err != err), error_magnitude=float(err), got=[[x.real, x.imag] for x in got], documented=[[(gi / den).real, (gi / den).imag] for gi in g])
+        return out
